@@ -79,11 +79,11 @@ def nontrivial(req, ans):
 
 
 SPEC = {
-    "tables": ["MacroMethods", "OpenQasmTemplates", "CQasmTemplates"],
+    "tables": ["MacroMethods", "OpenQasmTemplates", "CQasmTemplates", "PhaseTable", "Conj"],
     "props_module": PROPS_MODULE,
     "required": ["macro_propagates", "macro_returns_first_error", "builder_model_is_reference", "builder_atomic",
                  "builder_accepts_iff", "builder_appends", "builder_errors", "builder_never_panics", "builder_sequences",
-                 "no_panic_partial", "no_panic_reexecute_partial", "exec_either_representation_partial",
+                 "no_panic_partial", "no_panic_reexecute_partial", "no_panic_stabilizer_partial", "exec_either_representation_partial",
                  "reps_same_constructor_partial", "exports_never_panic_partial", "export_input_is_the_circuit", "openqasm_table_is_current",
                  "neg_zero_shots", "neg_repeated_qubit", "measure_all_short_same_error", "peek_all_long_same_error",
                  "measure_all_len_rejected_identically", "neg_cbit_ge_64",
@@ -159,11 +159,12 @@ def run(ctx):
         "no_panic_partial / no_panic_reexecute_partial: vector representation only, hypothesis ExecWF (the execution-relevant "
         "conjuncts of WellFormed, incl. well-formed Composite/Loop bodies and nr_qbits < 64); the numeric panic site WeightedIndex::new(..).unwrap() "
         "(all-zero / NaN weights) is not excluded by operand shapes (C02 excludes it in exact arithmetic)",
-        "exec_either_representation_partial / reps_same_constructor_partial: for the stabilizer representation the per-operation "
-        "safety record BackendSafe is a HYPOTHESIS; its tableau-level content is stated as `TabTotal` (Proofs/NoPanicGeneric.lean: "
-        "follows for n <= 2 and C03's gate set from TableauFinite.{gates,measure,reset}_exhaustive), the lift `StabLiftObligation` "
-        "from tableaux to StabilizerState is not proved; the record is "
-        "validated by the correspondence run (every traced operation of every stabilizer run), not proved",
+        "no_panic_stabilizer_partial / reps_same_constructor_partial (stabilizer representation, all register sizes, fresh state or "
+        "re-execute): hypotheses ExecWF, Circuit::is_stabilizer_circuit() accepts the circuit (the condition under which execute() "
+        "chooses this representation; the NotAStabilizer refusal of other circuits is not covered), parameter-free gate terms, and "
+        "C03's open hypothesis DetShapeHolds (the deterministic branch of measure finds its Z row). BackendSafe is no longer a "
+        "hypothesis: proved from C03's progress theorems (Proofs/NoPanicStab.lean lift, Proofs/NoPanicStabC03.lean discharge); the "
+        "statement is about the tableau model with C03's conjugation conjOfT over the generated tables Conj / PhaseTable",
         "exports_never_panic_partial covers all three exporters as statements about the exporter models of C11 / C12 / C13 on the "
         "image of the built circuit, under WellFormed; for latex() with the extra hypothesis condOneColumn (a conditional gate is a "
         "one-column library gate under distinct condition bits: the class C13's no-panic theorem covers; not a panic class, hence "
